@@ -9,7 +9,7 @@ META = dict(
                'codec.Envelope.from_bytes/_from_bytes/to_bytes/_to_bytes', 'codec.Field.from_bytes/to_bytes', 'codec.Buf', 'codec.Spare',
                'codec.Uint/_from_bytes/_to_bytes (+Int, 16/32 BE)', 'codec.BitFieldSet.__init__/_from_bytes/_to_bytes', 'codec.BitField.enc_val/dec_val',
                'codec.Sequence.from_bytes/to_bytes', 'data_msg.*.gen_msg (for the agreement obligations)'],
-    bounds=dict(quick='all field values symbolic; modulation code symbolic inside each burst-length class (NOPE, 148, 296, 444, 592, 740); v2: 0..2 batched sub-PDUs with classes from {NOPE,148,444}',
+    bounds=dict(quick='all field values symbolic; modulation code symbolic inside each burst-length class (NOPE, 148, 296, 444, 592, 740); v2: 0..2 batched sub-PDUs with classes from {NOPE,148,444}, and 7 and 8 idle sub-PDUs',
                 thorough='as quick; v2: 0..8 batched sub-PDUs (classes sampled with VERIF_SEED for k>2)'),
     stubs=['int.from_bytes / int.to_bytes / bytes.join models', 'bytes proxies'],
     outside=['more than 8 batched sub-PDUs', 'v2 has no data_msg counterpart (agreement is for v0/v1 only)'],
@@ -91,6 +91,9 @@ def jobs(tier, seed):
             out.append(('v2.%s.148+%s' % (d, a), 'h_v2', dict(direction=d, classes=[148, a])))
             for b in small:
                 out.append(('v2.%s.nope+%s+%s' % (d, a, b), 'h_v2', dict(direction=d, classes=['nope', a, b])))
+        # the longest batch of the format (8 sub-PDUs), here all of them idle indications: cheap, and in the quick tier
+        for k in (7, 8):
+            out.append(('v2.%s.k=%d.nope' % (d, k), 'h_v2', dict(direction=d, classes=[148] + ['nope'] * k)))
         if tier == 'thorough':
             for k in range(3, 9):
                 for rep in range(2):
